@@ -889,6 +889,7 @@ func OpEnd(outcome uint64) {
 	}
 	fold(0xed, uint64(cur), uint64(uint32(t.op)), outcome)
 	progress++
+	clockOffset += 1_000_000 // every finished call also costs one simulated millisecond
 	t.opStep = -1
 	me := cur
 	switch pol.Kind {
@@ -1061,7 +1062,7 @@ func begin(first int32) {
 
 //go:norace
 func collect() Result {
-	clockBase += steps*1000 + 1_000_000
+	clockBase += steps * 1000
 	r := res
 	r.Steps = steps
 	r.Signature = sig
